@@ -1,4 +1,6 @@
 CONSTANT Mode = "mc"
-SPECIFICATION LSpec
+SPECIFICATION LFair
+PROPERTY EveryLifeCycleEnds
+PROPERTY AcceptedRunsToCompletion
 INVARIANT RejectedEarlyOrCompleted
 CHECK_DEADLOCK FALSE
